@@ -425,6 +425,8 @@ impl TempPStrCounter {
   }
 
   pub fn alloc_temp_str(&self) -> PStr {
+    #[cfg(samlang_verif)]
+    verif_hooks::yield_point("temp_counter");
     let id = self.counter.fetch_add(1, Ordering::Relaxed);
     let string = format!("_t{id}");
     PStr::create_inline_opt(&string).expect("Too many temporary strings")
@@ -710,6 +712,51 @@ impl Heap {
 impl Default for Heap {
   fn default() -> Self {
     Self::new()
+  }
+}
+
+/// Seams for the deterministic simulator under /verif. Compiled only with `--cfg samlang_verif`;
+/// without a registered callback / override every hook is a no-op.
+#[cfg(samlang_verif)]
+pub mod verif_hooks {
+  use std::cell::Cell;
+  use std::sync::atomic::{AtomicUsize, Ordering};
+
+  static YIELD_CALLBACK: AtomicUsize = AtomicUsize::new(0);
+
+  thread_local! {
+    static GC_SLICE_OVERRIDE: Cell<usize> = const { Cell::new(0) };
+    static GC_SWEEP_UNIT_OVERRIDE: Cell<usize> = const { Cell::new(0) };
+  }
+
+  /// Register the function called at every yield point (process-wide).
+  pub fn set_yield_callback(callback: fn(&'static str)) {
+    YIELD_CALLBACK.store(callback as usize, Ordering::SeqCst);
+  }
+
+  /// A point at which the simulated scheduler may preempt the calling job.
+  pub fn yield_point(site: &'static str) {
+    let raw = YIELD_CALLBACK.load(Ordering::SeqCst);
+    if raw != 0 {
+      let callback: fn(&'static str) = unsafe { std::mem::transmute(raw) };
+      callback(site);
+    }
+  }
+
+  /// Per-thread overrides of the language server's GC slice sizes; 0 = use the shipped constant.
+  pub fn set_gc_overrides(modules_marked_per_slice: usize, sweep_unit: usize) {
+    GC_SLICE_OVERRIDE.with(|c| c.set(modules_marked_per_slice));
+    GC_SWEEP_UNIT_OVERRIDE.with(|c| c.set(sweep_unit));
+  }
+
+  pub fn gc_slice_override() -> Option<usize> {
+    let v = GC_SLICE_OVERRIDE.with(|c| c.get());
+    if v == 0 { None } else { Some(v) }
+  }
+
+  pub fn gc_sweep_unit_override() -> Option<usize> {
+    let v = GC_SWEEP_UNIT_OVERRIDE.with(|c| c.get());
+    if v == 0 { None } else { Some(v) }
   }
 }
 
